@@ -135,4 +135,27 @@ theorem C02_zip_owner_unix2_only (uid gid : Nat) (hu : uid < 65536) (hg : gid < 
     zipOwnership (unix2Extra uid gid) = .ok uid gid :=
   zipOwnership_unix2_only uid gid hu hg
 
+/-- **What a zip pack files is something a zip unpack takes**: an entry that `packZip` adds to the bucket (and writes) is —
+    after the pack filter — a regular file, a directory or a symlink; fifos, sockets and device nodes are refused with
+    `rio-pack-invalid` (`fix:`: before, the pack answered an id for them and committed a ware that `unpackZip` refuses, or
+    — a character device — reads back as an empty regular file). -/
+theorem C02_zip_pack_kinds (filt : PackFilter) (e : FsEntry) (b b' : Bucket) (h : packEntry .zip filt e b = .ok b') :
+    b' = b ∨ ∃ m, applyPackFilter filt e.m = .ok m ∧ (m.kind = .file ∨ m.kind = .dir ∨ m.kind = .symlink) := by
+  unfold packEntry at h
+  cases hf : applyPackFilter filt e.m with
+  | error c => simp [hf] at h
+  | ok m =>
+    simp only [hf] at h
+    by_cases hi : m.kind = .invalid
+    · left
+      simp only [hi, if_true] at h
+      injection h with h
+      exact h.symm
+    · right
+      refine ⟨m, rfl, ?_⟩
+      simp only [hi, if_false] at h
+      by_cases hk : m.kind ≠ .file ∧ m.kind ≠ .dir ∧ m.kind ≠ .symlink
+      · simp [hk] at h
+      · cases hkk : m.kind <;> simp_all
+
 end Rio
